@@ -364,6 +364,8 @@ fn find_free_symbols<'a>(
     env: &mut HashSet<&'a Cell>,
     free: &mut HashSet<&'a Cell>,
 ) -> Result<(), Error> {
+    #[cfg(marwood_verif)]
+    let _depth_guard = crate::verif_depth::Guard::enter(crate::verif_depth::FREE_SYMBOLS);
     match cell {
         Cell::Symbol(_) => match env.contains(&cell) {
             true => Ok(()),
